@@ -255,7 +255,7 @@ func c31SameData(rp *c31Repo, be backend.Backend) bool {
 }
 
 func streamC31(h *H) {
-	nrepo := h.N(2, 24)
+	nrepo := h.N(2, 12)
 	for ri := 0; ri < nrepo; ri++ {
 		rp := c31Build(h)
 		for _, kind := range []string{"mem", "local"} {
